@@ -60,6 +60,7 @@ var Alphabet = []Val{
 	{"t:", "", text("")},
 	{"t:a", "", text("a")},
 	{"t:0", "", text("0")},
+	{"t:é", "", text("é")}, // one character, two bytes: character counts and byte lengths disagree
 	{"t:-1", "", text("-1")},
 	{"t:2147483648", "m63", text("2147483648")},
 	{"t:1e5", "", text("1e5")},
@@ -91,6 +92,11 @@ var Alphabet = []Val{
 			nil,
 			types.NewXText("b"),
 		)
+	}},
+
+	{"a:null+multiline", "", func() types.XValue {
+		// an item that formats to nothing next to one that formats over several lines
+		return types.NewXArray(nil, types.NewXObject(map[string]types.XValue{"a": types.NewXNumberFromInt(1), "b": types.NewXNumberFromInt(2)}))
 	}},
 
 	{"o:{}", "", func() types.XValue { return types.NewXObject(map[string]types.XValue{}) }},
